@@ -40,6 +40,10 @@ type Case struct {
 
 const maxExhaustive = 90
 
+// KnownResetRUB: Blockchain.Reset on a node with RemoveUntraceableBlocks (target still traceable) leaves a node that
+// cannot go on (see known_findings.json).
+const KnownResetRUB = "reset-on-node-removing-untraceable-blocks"
+
 func genCase(t *rapid.T) Case {
 	c := Case{Chain: ck.GenChainCfg(t, true), Sample: rapid.IntRange(0, 1000).Draw(t, "sample")}
 	c.Node.Backend = "mem"
@@ -63,8 +67,14 @@ func genCase(t *rapid.T) Case {
 		kinds := []string{"block", "block", "block", "block", "flush", "flush", "headers", "restart", "race"}
 		if gcMode {
 			kinds = append(kinds, "gc", "gc", "gc")
-		} else if !c.Node.KeepOnlyLatest && resets < 2 {
-			kinds = append(kinds, "reset")
+		}
+		if !c.Node.KeepOnlyLatest && resets < 2 {
+			// A node that removes untraceable blocks can be reset too, as long as the target is traceable. That
+			// shape is the listed finding KnownResetRUB: it is drawn only when the finding is not listed (the draw
+			// itself is made in both cases so that cases stay comparable).
+			if !gcMode || !vt.Known(KnownResetRUB) {
+				kinds = append(kinds, "reset")
+			}
 		}
 		op := Op{Kind: rapid.SampledFrom(kinds).Draw(t, "op")}
 		switch op.Kind {
@@ -193,6 +203,7 @@ func checkCase(c Case, o *vt.Obs) error {
 	}
 	mark("boot", start, nil, 0)
 	sawGC, sawReset, sawHeaders, sawRace := false, false, false, false
+	refused := false
 	for i, op := range c.Ops {
 		from := rec.Count()
 		switch op.Kind {
@@ -300,7 +311,21 @@ func checkCase(c Case, o *vt.Obs) error {
 			mark("stop", from, nil, 0)
 			from = rec.Count()
 			if err := n.ResetTo(target); err != nil {
-				return fmt.Errorf("op %d: Reset(%d) from height %d failed: %v", i, target, delivered, err)
+				if strings.Contains(err.Error(), "a necessary batch of traceable blocks has already been removed") {
+					// documented refusal of a node that removes untraceable blocks: nothing may have changed
+					refused = true
+				} else {
+					return fmt.Errorf("op %d: Reset(%d) from height %d failed: %v", i, target, delivered, err)
+				}
+			}
+			if refused {
+				refused = false
+				o.Label("reset-refused:blocks-removed")
+				if h := n.BC.BlockHeight(); h != delivered {
+					return fmt.Errorf("op %d: refused reset changed the height from %d to %d", i, delivered, h)
+				}
+				mark("stop", from, nil, 0)
+				continue
 			}
 			// New branch: replay the common prefix on a fresh builder, then a different continuation.
 			nb, err := ck.NewBuilder(c.Chain)
